@@ -395,9 +395,9 @@ func init() {
 	ext("C18", "WebSocket: End stats event of failing / succeeding handlers",
 		HarnessSpec{Name: "VerifH_ws_close", Covers: []string{"stats"}})
 	ext("C06", "WebSocket: k<=2 masked JSON text frames echoed by the handler, then the client's close frame",
-		HarnessSpec{Name: "VerifH_ws_stream", Covers: []string{"echoed", "two-messages", "binary-frame"}})
+		HarnessSpec{Name: "VerifH_ws_stream", Covers: []string{"echoed", "two-messages", "binary-frame", "fragmented-message"}})
 	ext("C08", "WebSocket: a text message one byte above the receive limit among messages within it",
-		HarnessSpec{Name: "VerifH_ws_stream", Covers: []string{"oversize", "echoed"}})
+		HarnessSpec{Name: "VerifH_ws_stream", Covers: []string{"oversize", "echoed", "fragmented-message"}})
 	ext("C03", "real JSON codec (CodecJSON / protojson) through ServeHTTP: path variable + query parameter + JSON body (body: * and body: field) with symbolic escape-free strings of 1..2 bytes",
 		HarnessSpec{Name: "VerifH_serveHTTP_json", Covers: []string{"body-star", "body-field"}})
 	ext("C04", "real JSON codec: the reply decoded from the response body equals the handler's reply",
